@@ -21,7 +21,7 @@ func workerProc(r *vk.Run, w, n int, args []string) {
 	rng := rand.New(rand.NewSource(r.Seed*15013 + int64(w)*61 + 9))
 	total := 48
 	if !r.Quick() {
-		total = 480
+		total = 2400
 	}
 	per := (total + n - 1) / n
 	for i := 0; i < per; i++ {
